@@ -722,6 +722,12 @@ func harnessIntrinsic(fn *ssa.Function) nativeFn {
 			fr.i.R.hooks[target] = func(fr2 *frame, a []value) value { return call(fr2.i, fr2, token.NoPos, fnv, a) }
 			return nil
 		}
+	case "verifSetGlobal":
+		return func(fr *frame, args []value) value {
+			// gives a foreign package-level variable (whose initialiser is not run) a value
+			fr.i.setGlobal(str(args[0]), str(args[1]), args[2])
+			return nil
+		}
 	case "verifUnbind":
 		return func(fr *frame, args []value) value { delete(fr.i.R.hooks, str(args[0])); return nil }
 	case "verifGoroutineName":
